@@ -1,12 +1,13 @@
 """C18: the sign and date helpers of the Camt053 importer (the importer itself is decided only by the bounded family c18)."""
 from ._amount_units import U, RET
 CA = "cli/src/import/iso_camt053.rs"
+SE = "cli/src/import/single_entry.rs"
 XN = "cli/src/import/iso_camt053/xmlnode.rs"
 AM = "cli/src/import/amount.rs"
 
 GROUP = {
     "name": "camt",
-    "uses": "use vstd::std_specs::cmp::*;\n",
+    "uses": "use vstd::std_specs::cmp::*;\nuse std::collections::HashMap;\n",
     "parts": [
         ("text", "rust_decimal.rs"),
         ("text", "chrono.rs"),
@@ -24,6 +25,19 @@ GROUP = {
             credit_or_debit is Credit ==> r.value.val() == self.value.val(),      // @to_data.credit_is_positive
             credit_or_debit is Debit ==> r.value.val() == -self.value.val(),      // @to_data.debit_is_negative
             r.commodity@ == self.currency@,                                       // @to_data.keeps_currency
+"""),
+        ("raw", "pub mod syntax { #[derive(Clone, Copy, PartialEq, Eq)] pub enum ClearState { Uncleared, Cleared, Pending } }\n"),
+        U("Charge(type)", SE, [r"struct Charge\b"]),
+        U("Txn(type)", SE, [r"pub struct Txn\b"]),
+        U("Txn::effective_date", SE, [r"impl Txn\b", r"pub fn effective_date\b"], fn="effective_date", wrap=("impl Txn {", "}"),
+          rewrites=[RET()],
+          contract="""
+        ensures
+            // C18: the booking date becomes the effective date only when it differs from the transaction (value) date
+            // (the result is `self` handed back for chaining: its value at return time is what the caller continues with)
+            r.date == old(self).date,
+            r.effective_date == (if old(self).date.day() != effective_date.day() { Some(effective_date) } else { old(self).effective_date }),   // @Txn.effective_date.only_when_different
+            r.amount == old(self).amount, r.balance == old(self).balance, r.payee == old(self).payee,
 """),
         U("xmlnode::Entry::guess_value_date", CA, [r"impl xmlnode::Entry\b", r"fn guess_value_date\b"], fn="guess_value_date", wrap=("impl xmlnode::Entry {", "}"),
           rewrites=[RET()],
